@@ -1844,6 +1844,14 @@ impl Server {
         }
     }
     
+    /// Parse a score, increment or score bound: any float except NaN
+    fn parse_score(bytes: &[u8]) -> Option<f64> {
+        match String::from_utf8_lossy(bytes).parse::<f64>() {
+            Ok(n) if !n.is_nan() => Some(n),
+            _ => None,
+        }
+    }
+    
     /// Handle ZADD command
     fn handle_zadd(&self, parts: &[RespFrame], db: usize) -> Result<RespFrame> {
         // ZADD key score member [score member ...]
@@ -1857,15 +1865,14 @@ impl Server {
             _ => return Ok(RespFrame::error("ERR invalid key format")),
         };
         
-        let mut new_members = 0;
-        
-        // Process each score-member pair
+        // Validate every score-member pair before changing anything
+        let mut pairs = Vec::with_capacity((parts.len() - 2) / 2);
         for i in (2..parts.len()).step_by(2) {
             let score = match &parts[i] {
                 RespFrame::BulkString(Some(bytes)) => {
-                    match String::from_utf8_lossy(bytes).parse::<f64>() {
-                        Ok(n) => n,
-                        Err(_) => return Ok(RespFrame::error("ERR value is not a valid float")),
+                    match Self::parse_score(bytes) {
+                        Some(n) => n,
+                        None => return Ok(RespFrame::error("ERR value is not a valid float")),
                     }
                 }
                 _ => return Ok(RespFrame::error("ERR invalid score format")),
@@ -1876,6 +1883,11 @@ impl Server {
                 _ => return Ok(RespFrame::error("ERR invalid member format")),
             };
             
+            pairs.push((member, score));
+        }
+        
+        let mut new_members = 0;
+        for (member, score) in pairs {
             // Add to sorted set 
             if self.storage.zadd(db, key.clone(), member, score)? {
                 new_members += 1;
@@ -2161,9 +2173,9 @@ impl Server {
         // Extract min score
         let min_score = match &parts[2] {
             RespFrame::BulkString(Some(bytes)) => {
-                match String::from_utf8_lossy(bytes).parse::<f64>() {
-                    Ok(n) => n,
-                    Err(_) => return Ok(RespFrame::error("ERR min or max is not a float")),
+                match Self::parse_score(bytes) {
+                    Some(n) => n,
+                    None => return Ok(RespFrame::error("ERR min or max is not a float")),
                 }
             }
             _ => return Ok(RespFrame::error("ERR invalid min score format")),
@@ -2172,9 +2184,9 @@ impl Server {
         // Extract max score
         let max_score = match &parts[3] {
             RespFrame::BulkString(Some(bytes)) => {
-                match String::from_utf8_lossy(bytes).parse::<f64>() {
-                    Ok(n) => n,
-                    Err(_) => return Ok(RespFrame::error("ERR min or max is not a float")),
+                match Self::parse_score(bytes) {
+                    Some(n) => n,
+                    None => return Ok(RespFrame::error("ERR min or max is not a float")),
                 }
             }
             _ => return Ok(RespFrame::error("ERR invalid max score format")),
@@ -2225,9 +2237,9 @@ impl Server {
         // Extract max score
         let max_score = match &parts[2] {
             RespFrame::BulkString(Some(bytes)) => {
-                match String::from_utf8_lossy(bytes).parse::<f64>() {
-                    Ok(n) => n,
-                    Err(_) => return Ok(RespFrame::error("ERR min or max is not a float")),
+                match Self::parse_score(bytes) {
+                    Some(n) => n,
+                    None => return Ok(RespFrame::error("ERR min or max is not a float")),
                 }
             }
             _ => return Ok(RespFrame::error("ERR invalid max score format")),
@@ -2236,9 +2248,9 @@ impl Server {
         // Extract min score
         let min_score = match &parts[3] {
             RespFrame::BulkString(Some(bytes)) => {
-                match String::from_utf8_lossy(bytes).parse::<f64>() {
-                    Ok(n) => n,
-                    Err(_) => return Ok(RespFrame::error("ERR min or max is not a float")),
+                match Self::parse_score(bytes) {
+                    Some(n) => n,
+                    None => return Ok(RespFrame::error("ERR min or max is not a float")),
                 }
             }
             _ => return Ok(RespFrame::error("ERR invalid min score format")),
@@ -2289,11 +2301,9 @@ impl Server {
         // Extract min score
         let min_score = match &parts[2] {
             RespFrame::BulkString(Some(bytes)) => {
-                match String::from_utf8_lossy(bytes).parse::<f64>() {
-                    Ok(n)
-
- => n,
-                    Err(_) => return Ok(RespFrame::error("ERR min or max is not a float")),
+                match Self::parse_score(bytes) {
+                    Some(n) => n,
+                    None => return Ok(RespFrame::error("ERR min or max is not a float")),
                 }
             }
             _ => return Ok(RespFrame::error("ERR invalid min score format")),
@@ -2302,9 +2312,9 @@ impl Server {
         // Extract max score
         let max_score = match &parts[3] {
             RespFrame::BulkString(Some(bytes)) => {
-                match String::from_utf8_lossy(bytes).parse::<f64>() {
-                    Ok(n) => n,
-                    Err(_) => return Ok(RespFrame::error("ERR min or max is not a float")),
+                match Self::parse_score(bytes) {
+                    Some(n) => n,
+                    None => return Ok(RespFrame::error("ERR min or max is not a float")),
                 }
             }
             _ => return Ok(RespFrame::error("ERR invalid max score format")),
@@ -2332,9 +2342,9 @@ impl Server {
         // Extract increment
         let increment = match &parts[2] {
             RespFrame::BulkString(Some(bytes)) => {
-                match String::from_utf8_lossy(bytes).parse::<f64>() {
-                    Ok(n) => n,
-                    Err(_) => return Ok(RespFrame::error("ERR value is not a valid float")),
+                match Self::parse_score(bytes) {
+                    Some(n) => n,
+                    None => return Ok(RespFrame::error("ERR value is not a valid float")),
                 }
             }
             _ => return Ok(RespFrame::error("ERR invalid increment format")),
